@@ -170,6 +170,7 @@ def event_kind(desc_case_line):
 
 
 ABS_PROPS = {"C01", "C02", "C03", "C04", "C05", "C06", "C09"}
+REPLPAIR_PROPS = {"C02", "C03", "C06", "C15"}   # real replication goroutine against a real follower
 CFG_PROPS = {"C01", "C02", "C03", "C04", "C06", "C07", "C08", "C09", "C11"}   # histories with membership changes, crashes and snapshots against Abs/CfgRaft.v
 ABS_CODES = {1: "no projection listed for the event's node", 2: "observed projections differ from the abstract state after the event",
              10: "election started by node 0", 11: "election started by a node that is leader",
@@ -350,6 +351,30 @@ def run_node(pid, tier, seed):
             cov["pool_sequences"] = pmeta["cases"]
             cov["rule"] += ("; connection pool: %d scripted request sequences through the real connPool.doRPC against a peer that answers in time, "
                             "late or never, compared with Ident/Pool.v (pool_replies_paired)" % pmeta["cases"])
+    if pid in REPLPAIR_PROPS:
+        # the real replication goroutine against a real follower (what the simulator only mirrors)
+        rwd = vlib.workdir(pid + "_replpair")
+        rounds = 9 if tier == "quick" else 240
+        rc, rout = vlib.vh(["raft", "replpair", seed, rounds, rwd], timeout=3000)
+        if rc != 0:
+            out.append({"signature": "harness-died replpair", "detail": died(rout), "found": True,
+                        "replay": {"property": pid, "kind": "process died while driving the real code", "driver": "replpair", "output_tail": rout[-3000:]}})
+        else:
+            rmeta = json.load(open(os.path.join(rwd, "replpair_meta.json")))
+            seen_r = {}
+            for fnd in rmeta.get("findings") or []:
+                prop, sig, detail = (fnd.split("|", 3) + ["", "", ""])[:3]
+                seen_r[sig] = seen_r.get(sig, 0) + 1
+                if seen_r[sig] <= 2:
+                    out.append({"signature": "replpair " + sig, "detail": detail[:1500], "found": True,
+                                "replay": {"property": pid, "kind": "oracle on the real replication goroutine against a real follower", "oracle": sig,
+                                           "what": detail[:3000], "seed": seed, "cmd": "vh raft replpair %s %s <dir>" % (seed, rounds)}})
+            cov["replpair_rounds"] = rmeta.get("rounds")
+            cov["replpair_distribution"] = rmeta.get("dist")
+            cov["rule"] += ("; replication pair: %s rounds of the real replication goroutine (probe, pipeline writer/reader, draining, pooled connections) of a "
+                            "real leader against a real follower held back at chosen moments (answers outstanding when the connection is cut / the "
+                            "replication is stopped / the node leads again): every match index the leader records is within the follower's log and "
+                            "agrees with it" % rmeta.get("rounds"))
     cov.update(abs_cov)
     if abs_cov:
         cov["rule"] += ("; abstract tie: %d whole-cluster histories (%d events) of the real nodes were checked by "
